@@ -92,6 +92,9 @@ class GW5APLL(LiteXModule):
                             config = {}
                             for n, (clk, f, p, m) in self.clkouts.items():
                                 odiv = round(vco_freq/f)
+                                if odiv < 1 or odiv > 128:
+                                    okay = False
+                                    continue
                                 out_freq = vco_freq/odiv
                                 diff = abs(out_freq - f) / f
                                 pe = round(p * odiv / 360)
